@@ -195,6 +195,8 @@ PruneOK(pre, post, d, cap) ==
     IN /\ left \subseteq names
        /\ SubDirs(pre, d) = SubDirs(post, d)
        /\ PlanOK(ents, cap, SetToSeq(gone), movedSeq)
+       \* reprieved entries re-enter the queue one after the other: their new queue positions are pairwise distinct
+       /\ \A a, b \in moved : a # b => InoAt(post, d, a).mt # InoAt(post, d, b).mt
        /\ \A n \in moved :
             /\ post.ents[d][n] = pre.ents[d][n]
             /\ InoAt(post, d, n).at = <<InoAt(post, d, n).mt[1] - 120, InoAt(post, d, n).mt[2]>>     \* read mark cleared
@@ -298,6 +300,29 @@ StackObs(cfg, s, r, e) ==
      wpost |-> WPost(cfg, s),
      pairs |-> IF Has(r, "checks") THEN {<<LevelOfTag(cfg.sw, r.checks[i][1].w), LevelOfTag(cfg.sw, r.checks[i][2].w)>> : i \in 1..Len(r.checks)} ELSE {},
      kind |-> IF Has(r, "kind") THEN r.kind ELSE ""]
+\* C14, last sentence: with no checker configured, levels after the one that served a lookup are not consulted
+LevelOfDir(cfg, d) ==      \* 0 = write cache, i = i-th read-only level (cfg.roots lists the write root first when there is one)
+    LET hasw == cfg.sw.writer # "none"
+        idx == CHOOSE i \in 1..Len(cfg.roots) : Under(d, cfg.roots[i].id)
+    IN IF hasw THEN idx - 1 ELSE idx
+NoLaterLookups(cfg, s, e) ==
+    e.e = "ret" /\ Has(cfg, "sw") /\ cfg.sw.checker = "none" /\ cfg.sw.op \in {"get", "touch"} /\ e.p = 1 /\ e.ok
+        /\ e.res \in {"some", "true"} /\ e.p \in DOMAIN s.opens =>
+        LET sw == cfg.sw
+            hit == IF sw.writer # "none" /\ sw.w # "none" THEN 0 ELSE CHOOSE i \in 1..Len(sw.rs) : sw.rs[i] # "none" /\ \A j \in 1..(i - 1) : sw.rs[j] = "none"
+        IN \A d \in DOMAIN s.opens[e.p] : (\E i \in 1..Len(cfg.roots) : Under(d, cfg.roots[i].id)) => LevelOfDir(cfg, d) <= hit
+
+\* C13: touch marks the first copy found -- and only that one
+TouchMarksFirstOnly(cfg, s, e) ==
+    e.e = "ret" /\ Has(cfg, "sw") /\ cfg.sw.op = "touch" /\ e.p = 1 /\ e.ok /\ e.p \in DOMAIN s.atcall =>
+        LET sw == cfg.sw pre == s.atcall[e.p]
+            hit == IF sw.writer # "none" /\ sw.w # "none" THEN 0
+                   ELSE IF \E i \in 1..Len(sw.rs) : sw.rs[i] # "none" THEN CHOOSE i \in 1..Len(sw.rs) : sw.rs[i] # "none" /\ \A j \in 1..(i - 1) : sw.rs[j] = "none"
+                   ELSE 100
+        IN \A d \in DOMAIN pre.ents : (\E i \in 1..Len(cfg.roots) : Under(d, cfg.roots[i].id)) /\ LevelOfDir(cfg, d) > hit =>
+              \A n \in DOMAIN pre.ents[d] : LET i == pre.ents[d][n] IN
+                  i # "DIR" /\ i \in DOMAIN pre.inos /\ i \in DOMAIN s.fs.inos => s.fs.inos[i].at = pre.inos[i].at
+
 StackOK(cfg, s, e) ==
     e.e = "obs" /\ Has(cfg, "sw") /\ e.p = 1 /\ e.p \in DOMAIN s.lastret =>
         ObservedOK(cfg.sw, StackObs(cfg, s, s.lastret[e.p], e))
